@@ -267,6 +267,13 @@ def f_no_fault(c):
     c.expect = ("valid",)
 
 
+def f_header_var_set(c):
+    """A resolvable $ENV header next to a local schema: valid, and must not be written back into the configuration."""
+    c.cfg["remote_schema_headers"] = {"Authorization": "$SIM_TOKEN_SET", "X-Plain": "v"}
+    c.env = {"SIM_TOKEN_SET": "secret-value"}
+    c.expect = ("valid",)
+
+
 # ---- GraphQL source faults -----------------------------------------------------------
 
 def _classify_project(c: Ctx) -> Tuple:
@@ -527,7 +534,7 @@ OP_RULES = ["unknown_field", "leaf_with_selection", "object_without_selection", 
 
 FAULTS: Dict[str, Callable] = {
     "control:no_fault": f_no_fault, "control:unknown_keys": f_unknown_keys, "control:reordered_keys": f_reordered_keys,
-    "control:graphql_comments": f_graphql_comments,
+    "control:graphql_comments": f_graphql_comments, "control:header_var_set": f_header_var_set,
     "config:no_schema_source": f_no_schema_source, "config:schema_path_missing": f_schema_path_missing,
     "config:queries_path_missing": f_queries_path_missing, "config:queries_path_absent": f_queries_path_absent,
     "config:base_client_file_missing": f_base_client_file_missing, "config:base_client_file_is_dir": f_base_client_file_is_dir,
@@ -593,7 +600,7 @@ def run_case(case, ch: Choices) -> RunResult:
     base = genrun.scratch_dir("verif-c17-")
     try:
         root = os.path.join(base, "p")
-        mat = worlds.materialize(world, root, spart, qpart)
+        mat = worlds.materialize(world, root, spart, qpart, tail_seed=(None if p.get("corpus") else ch.draw("lay.tails", 2 ** 16)))
         target = mat["targets"][0]
         # ---- precondition: the un-faulted world works (also yields the "previous generation")
         r0 = genrun.run_child(root, mat["argv"], mat["targets"])
@@ -655,6 +662,9 @@ def run_case(case, ch: Choices) -> RunResult:
         if r.get("timeout"):
             res.discarded = "generation-timeout"
             return res
+        if r.get("config_mutated"):
+            res.violations.append(Violation("config-mutated", "fault %s: reading settings changed the configuration dict it was given: %s" % (
+                fault_name, r["config_mutated"]), {}))
         if expect[0] == "unspecified":
             res.bump("expect.unspecified")
             res.observations.append("unspecified:%s->%s" % (fault_name, exc.get("type") or "accepted"))
@@ -662,8 +672,6 @@ def run_case(case, ch: Choices) -> RunResult:
             if r.get("exit") != 0:
                 res.violations.append(Violation("valid-input-rejected", "fault %s leaves the input valid (%s) but the command failed: %s: %s" % (
                     fault_name, ctx.note, exc.get("type"), (exc.get("msg") or "")[:300]), key))
-            if r.get("config_mutated"):
-                res.violations.append(Violation("config-mutated", "reading settings changed the configuration dict: %s" % r["config_mutated"], key))
         else:
             kinds, needle = expect[1], expect[2]
             is_codegen = "ariadne_codegen.exceptions.CodeGenException" in (exc.get("mro") or [])
